@@ -13,6 +13,7 @@ import (
 	p "github.com/Oudwins/zog/internals"
 	"github.com/Oudwins/zog/zconst"
 	"github.com/Oudwins/zog/parsers/zjson"
+	"github.com/Oudwins/zog/zhttp"
 	v "github.com/Oudwins/zog/zzverif"
 )
 
@@ -27,8 +28,8 @@ func init() { Registry["C07"] = C07_Run }
 //  hist/<prior>/<probe>  explicit histories: a prior call (options, outcome, optional Collect)
 //                   followed by the probe, compared with the probe alone.
 
-var c07Probes = []string{"int-test", "int-coerce", "int-required", "struct", "slice", "custom-issue", "ptr-validate", "null-json", "msgfunc", "shared-schema", "outside-tests", "i18n-default", "negzero-param"}
-var c07Priors = []string{"ctxvalue", "formatter", "failing-struct", "collect-map", "collect-list", "catching", "panicking", "null-json", "shared-then-collect", "tests-ran", "i18n-es", "empty-tag", "collect-root", "poszero-param"}
+var c07Probes = []string{"int-test", "int-coerce", "int-required", "struct", "slice", "custom-issue", "ptr-validate", "null-json", "msgfunc", "shared-schema", "outside-tests", "i18n-default", "negzero-param", "absent-record-keys"}
+var c07Priors = []string{"ctxvalue", "formatter", "failing-struct", "collect-map", "collect-list", "catching", "panicking", "null-json", "shared-then-collect", "tests-ran", "i18n-es", "empty-tag", "collect-root", "poszero-param", "json-absent-record"}
 
 func C07_Jobs() []string {
 	var out []string
@@ -178,6 +179,21 @@ func c07Probe(kind string, g, x int) *c07Obs {
 			Q *[]int
 		}
 		obsMap(o, z.Struct(z.Schema{"p": z.Ptr(z.Int()).NotNil(), "q": z.Ptr(z.Slice(z.Int())).NotNil()}).Validate(&ns))
+	case "absent-record-keys":
+		// a record that is nil in a Go map: its leaves are reported under this call's keys (schema
+		// key / zog tag - a map has no source tag), whatever sources earlier calls read from
+		var d struct {
+			Home struct {
+				Zip int `json:"zip_code" form:"zip_form" query:"zip_query" env:"ZIP_ENV"`
+			} `json:"home_rec" form:"home_form"`
+			Alt *struct {
+				Zip int `json:"zip_code"`
+			} `json:"alt_rec"`
+		}
+		errs := z.Struct(z.Schema{"home": z.Struct(z.Schema{"zip": z.Int().Required()}), "alt": z.Ptr(z.Struct(z.Schema{"zip": z.Int().Required()}))}).
+			Parse(map[string]any{"home": nil, "alt": map[string]any{}}, &d)
+		obsMap(o, errs)
+		v.Assert(len(errs) == 3 && len(errs["home.zip"]) == 1 && len(errs["alt.zip"]) == 1, "C07:result-depends-on-earlier-executions")
 	case "null-json":
 		var d struct{ A int }
 		errs := z.Struct(z.Schema{"a": z.Int()}).Parse(zjson.Decode(strings.NewReader("null")), &d, z.WithIssueFormatter(func(e *z.ZogIssue, c z.Ctx) { e.SetMessage("probe-formatter") }))
@@ -406,6 +422,22 @@ func c07Prior(kind string) {
 		z.String().Min(5).Parse("ab", &d, z.WithCtxValue("lang", "es"))
 		n := 1
 		z.Int().GT(100).Validate(&n, z.WithCtxValue("lang", "es"))
+	case "json-absent-record":
+		// JSON, form and query documents whose nested records are null / missing
+		var d struct {
+			Home struct {
+				Zip int `json:"zip_code" form:"zip_form" query:"zip_query"`
+			} `json:"home_rec"`
+			Alt *struct {
+				Zip int `json:"zip_code"`
+			} `json:"alt_rec"`
+		}
+		sc := z.Struct(z.Schema{"home": z.Struct(z.Schema{"zip": z.Int().Required()}), "alt": z.Ptr(z.Struct(z.Schema{"zip": z.Int().Required()}))})
+		sc.Parse(zjson.Decode(strings.NewReader(`{"home_rec":null,"alt_rec":null}`)), &d)
+		sc.Parse(zjson.Decode(strings.NewReader(`{"alt_rec":{}}`)), &d)
+		sc.Parse(zhttp.Request(c11Request("POST", "application/json", `{"home_rec":null}`, "")), &d)
+		sc.Parse(zhttp.Request(c11Request("POST", "application/x-www-form-urlencoded", "x=1", "")), &d)
+		sc.Parse(zhttp.Request(c11Request("GET", "", "", "x=1")), &d)
 	case "null-json":
 		var d struct{ A int }
 		z.Struct(z.Schema{"a": z.Int()}).Parse(zjson.Decode(strings.NewReader("null")), &d, z.WithIssueFormatter(staleFormatter))
